@@ -233,7 +233,7 @@ CLAIMED = {
         "for each server outcome and the documented constant with noreply, with the documented noreply defaults.",
    note="The history-level statement (client + faithful server is indistinguishable from an in-memory map) is the composition of these "
         "per-call facts with C01/C02; the induction over histories is stated, not mechanised, and exercised by a bounded replay (random "
-        "histories against a faithful fake server). NOT COVERED: set_many's failed-key list, HashClient multi-key results, stats/version.",
+        "histories against a faithful fake server). set_many: the returned list is exactly the keys whose own reply was not STORED, in dict order ([] with noreply). NOT COVERED: HashClient multi-key results, stats/version.",
    technique="contract-based deductive verification: finite case VCs per method over exchange-function contracts (z3 + cvc5)",
    ref="5 C05"),
 }
